@@ -1,4 +1,4 @@
-import OrdModel.Proofs.BuilderNoPanic
+import OrdModel.Proofs.BuilderNoPanic4
 /-!
 # C20 — ordinal-aware sends never misdirect or burn inscriptions; never panic
 
@@ -186,6 +186,33 @@ theorem c20_no_panic_partial_stages123 (env : Env) (w : Wallet) (r : Request) (w
   rcases bind_eq_panic.1 h with h | ⟨s2, h2, h⟩
   · exact alignOutgoing_no_panic wf h1 s h
   · exact padAlignmentOutput_no_panic wf hv h1 h2 s h
+
+/-- the pipeline up to and including `add_value` (coin selection for value) -/
+def stages1234 (env : Env) (w : Wallet) (r : Request) : Outcome St := do
+  let s3 ← stages123 env w r
+  addValue env w r s3
+
+/-- Stages 1–4 never panic when, in addition, the wallet total is below 2^64 (the budget
+invariant `outputs + unused utxos ≤ wallet total` excludes every `Amount` overflow, the
+selection loops terminate within their fuel, no `unwrap`/index site is reachable).  No
+hypothesis on the fee function at all. -/
+theorem c20_no_panic_partial_stages1234 (env : Env) (w : Wallet) (r : Request) (wf : WF12 env w r)
+    (hv : ∀ u v, w.amounts.lookup u = some v → env.dust r.change0 + v < U64)
+    (htot : walletTotal w < U64) (s : String) :
+    stages1234 env w r ≠ .panic s := by
+  unfold stages1234
+  simp only [bind_def]
+  intro h
+  rcases bind_eq_panic.1 h with h | ⟨s3, h3, h⟩
+  · exact c20_no_panic_partial_stages123 env w r wf hv s h
+  · unfold stages123 at h3
+    simp only [bind_def] at h3
+    obtain ⟨_, _, h3⟩ := bind_eq_ok.1 h3
+    obtain ⟨s1, h1, h3⟩ := bind_eq_ok.1 h3
+    obtain ⟨s2, h2, h3⟩ := bind_eq_ok.1 h3
+    exact addValue_no_panic env w r s htot s3 (inv_after_stage3 wf h1 h2 h3) h
+
+example : walletTotal (wal [(0, 30000), (1, 5000)] [(0, 100), (0, 1000)]) < U64 := by decide
 
 /-- the hypotheses are satisfiable on the non-vacuity wallet above, and there the three stages
 do real work (alignment output, no padding needed) -/
